@@ -250,7 +250,11 @@ func (server *Server) Start() {
 func (server *Server) getHeaderMetadata(ctx context.Context, name string) (bool, HeaderV3, []byte, error) {
 	found, header, metadataBytes, purgeEtag, err := server.getHeaderMetadataAttempt(ctx, name, "")
 	if len(purgeEtag) > 0 {
-		found, header, metadataBytes, _, err = server.getHeaderMetadataAttempt(ctx, name, purgeEtag)
+		found, header, metadataBytes, purgeEtag, err = server.getHeaderMetadataAttempt(ctx, name, purgeEtag)
+		if len(purgeEtag) > 0 && err == nil {
+			// the archive changed again during the retry: an I/O error, not a missing archive
+			err = errors.New("archive changed during request")
+		}
 	}
 	return found, header, metadataBytes, err
 }
